@@ -10,6 +10,10 @@ From Pnc Require Import Proofs_Layout.
 From Pnc Require Import Proofs_Redef.
 From Pnc Require Import Proofs_Exec2.
 From Pnc Require Import Proofs_Reach3.
+From Pnc Require Import CSub.
+From Pnc Require Import Gen_begins.
+From Pnc Require Import Proofs_GenBegins.
+From Pnc Require Import Proofs_GenBeginsRedef.
 Set Printing Width 100.
 Set Printing Depth 100000.
 
@@ -380,3 +384,111 @@ Theorem C06_inv_redef_preserves :
                Disk.dk_get d0 (ob + r * Header.l_recsize ol + o))))).
 Proof. exact @inv_redef_preserves. Qed.
 Print Assumptions C06_inv_redef_preserves.
+
+(* enddef after redef (ncp->old != NULL): the first loop of NC_begins as translated from ncmpio_enddef.c as built on this run (Gen_begins.v), with its cursor over the old variables, against Header.begins_fixed fed with the begins of the old fixed-size variables: same verdict, end offset and begins (nothing moves towards the beginning of the file). PARTIAL: the straight-line steps around the loops (begin_var / begin_rec maximum with the old values) are covered by the runs below only *)
+Theorem C06_gen_begins_redef_fixed_partial :
+  forall (n0 : c_NC) (xsz : Z) (ovs : vlist) (obv obr OB : Z) (vars : list c_NC_var) 
+           (ev : Z) (lastv : c_ref),
+         NC__old n0 = Some (c_old ovs obv obr) ->
+         (Base.Zlen ovs <= 2147483647)%Z ->
+         NC_vararray__ndefined (NC__vars n0) = Base.Zlen vars ->
+         (Base.Zlen vars <= 2147483647)%Z ->
+         Forall cv_wf vars ->
+         Forall (fun v : c_NC_var => (0 <= NC_var__len v)%Z) vars ->
+         (0 <= ev)%Z ->
+         (ev + lens4 vars <= MAXOFF)%Z ->
+         (OB + lens4 vars <= MAXOFF)%Z ->
+         Forall (fun p : bool * Z => (snd p <= OB)%Z) ovs ->
+         let s0 := mkS (with_vals n0 vars) ev None 0 0 lastv in
+         exists s' : st_NC_begins,
+           c_loop (NC_begins_loop1_fuel n0 xsz s0) (NC_begins_loop1_cdef n0 xsz)
+             (NC_begins_loop1_cond n0 xsz) (NC_begins_loop1_body n0 xsz) 
+             (NC_begins_loop1_inc n0 xsz) s0 =
+           match Header.begins_fixed (NC__format n0) (map pair_of vars) (ofix ovs) ev nil with
+           | Some _ => CNorm s'
+           | None => CRetS Gen_consts.NC_EVARSIZE s'
+           end /\
+           (forall (ef : Z) (fb : list (option Z)),
+            Header.begins_fixed (NC__format n0) (map pair_of vars) (ofix ovs) ev nil = Some (ef, fb) ->
+            NC_begins__end_var s' = ef /\ map fixed_begin (arr_of s') = fb).
+Proof. exact @gen_begins_redef_fixed_partial. Qed.
+Print Assumptions C06_gen_begins_redef_fixed_partial.
+
+(* the second loop (record variables, old record begins) against Header.begins_rec *)
+Theorem C06_gen_begins_redef_rec_partial :
+  forall (n0 : c_NC) (xsz : Z) (ovs : vlist) (obv obr : Z) (vars : list c_NC_var) 
+           (ev : Z) (fv lastv : c_ref),
+         NC__old n0 = Some (c_old ovs obv obr) ->
+         (Base.Zlen ovs <= 2147483647)%Z ->
+         NC_vararray__ndefined (NC__vars n0) = Base.Zlen vars ->
+         (Base.Zlen vars <= 2147483647)%Z ->
+         Forall cv_wf vars ->
+         Forall (fun v : c_NC_var => (0 <= NC_var__len v)%Z) vars ->
+         (0 <= ev)%Z ->
+         (ev + lens4 vars <= MAXOFF)%Z ->
+         let s0 := mkS (with_vals_rs n0 vars 0) ev fv 0 0 lastv in
+         exists s' : st_NC_begins,
+           c_loop (NC_begins_loop3_fuel n0 xsz s0) (NC_begins_loop3_cdef n0 xsz)
+             (NC_begins_loop3_cond n0 xsz) (NC_begins_loop3_body n0 xsz) 
+             (NC_begins_loop3_inc n0 xsz) s0 =
+           match Header.begins_rec (NC__format n0) (map pair_of vars) (orec ovs) ev 0 None nil with
+           | Some _ => CNorm s'
+           | None => CRetS Gen_consts.NC_EVARSIZE s'
+           end /\
+           (forall (er rs : Z) (ll : option Z) (rb : list (option Z)),
+            Header.begins_rec (NC__format n0) (map pair_of vars) (orec ovs) ev 0 None nil =
+            Some (er, rs, ll, rb) ->
+            NC_begins__end_var s' = er /\
+            NC__recsize (NC_begins__P_ncp s') = rs /\
+            map rec_begin (arr_of s') = rb /\ last_rec_len None (arr_of s') = ll).
+Proof. exact @gen_begins_redef_rec_partial. Qed.
+Print Assumptions C06_gen_begins_redef_rec_partial.
+
+(* the WHOLE generated NC_begins with an old header computes the layout of Header.begins (Some old) on concrete redefinitions (variables appended, alignment changed, header grown, record variable inserted first) *)
+Theorem C06_gen_begins_redef_runs :
+  begins_agree_redef
+           {|
+             Header.h_format := 2;
+             Header.h_numrecs := 3;
+             Header.h_dims := exb_dims;
+             Header.h_gatts := nil;
+             Header.h_vars :=
+               exb_var 97 (1%Z :: 2%Z :: nil) 3
+               :: exb_var 98 (0%Z :: 1%Z :: nil) 5
+                  :: exb_var 99 (2%Z :: nil) 1 :: exb_var 100 (0%Z :: 2%Z :: nil) 6 :: nil
+           |} 0 0 4 4 (Header.l_begin_rec (exr_lay 0 0 512 4)) (exr_lay 0 0 512 4)
+           (false :: true :: nil) = true /\
+         begins_agree_redef
+           {|
+             Header.h_format := 2;
+             Header.h_numrecs := 3;
+             Header.h_dims := exb_dims;
+             Header.h_gatts := nil;
+             Header.h_vars :=
+               exb_var 97 (1%Z :: 2%Z :: nil) 3
+               :: exb_var 98 (0%Z :: 1%Z :: nil) 5 :: exb_var 99 (2%Z :: nil) 1 :: nil
+           |} 0 0 1024 8 (Header.l_begin_rec (exr_lay 0 0 4 4)) (exr_lay 0 0 4 4)
+           (false :: true :: nil) = true /\
+         begins_agree_redef
+           {|
+             Header.h_format := 2;
+             Header.h_numrecs := 3;
+             Header.h_dims := exb_dims;
+             Header.h_gatts := nil;
+             Header.h_vars :=
+               exb_var 97 (1%Z :: 2%Z :: nil) 3 :: exb_var 98 (0%Z :: 1%Z :: nil) 5 :: nil
+           |} 2000 64 4 4 (Header.l_begin_rec (exr_lay 0 0 4 4)) (exr_lay 0 0 4 4)
+           (false :: true :: nil) = true /\
+         begins_agree_redef
+           {|
+             Header.h_format := 2;
+             Header.h_numrecs := 3;
+             Header.h_dims := exb_dims;
+             Header.h_gatts := nil;
+             Header.h_vars :=
+               exb_var 96 (0%Z :: 2%Z :: nil) 4
+               :: exb_var 97 (1%Z :: 2%Z :: nil) 3 :: exb_var 98 (0%Z :: 1%Z :: nil) 5 :: nil
+           |} 0 0 4 4 (Header.l_begin_rec (exr_lay 0 100 512 4)) (exr_lay 0 100 512 4)
+           (false :: true :: nil) = true.
+Proof. exact @gen_begins_redef_runs. Qed.
+Print Assumptions C06_gen_begins_redef_runs.
